@@ -196,3 +196,383 @@ package psatoken
 //@   modifies nothing
 //@   loop 0 invariant 0 <= i && i <= len(o.values) && len(ret) == len(o.values) && fresh(ret) && ret != nil
 //@   loop 0 invariant forall(j, 0, i, o.values[j] != nil && specComponent(o.values[j]) && ret[j] == ifaceOf(o.values[j], ISwComponent))
+
+// ---------------------------------------------------------------- claims_p1.go: getters
+
+//@ func (P1Claims).GetProfile
+//@   property C01 C05 C13 C17 C18 C07
+//@   ensures[absent] c.Profile == nil ==> ret1 == nil && ret0 == c.CanonicalProfile
+//@   ensures[match] c.Profile != nil && *c.Profile == c.CanonicalProfile ==> ret1 == nil && ret0 == c.CanonicalProfile
+//@   ensures[mismatch] c.Profile != nil && *c.Profile != c.CanonicalProfile ==> ret0 == "" && ret1 != nil && errOnly(ret1, ErrWrongProfile)
+//@   modifies nothing
+
+//@ func (P1Claims).GetClientID
+//@   property C01 C05 C13 C17 C18
+//@   ensures[absent] c.ClientID == nil ==> ret0 == 0 && ret1 != nil && errOnly(ret1, ErrMissingMandatory)
+//@   ensures[present] c.ClientID != nil ==> ret1 == nil && ret0 == *c.ClientID
+//@   modifies nothing
+
+//@ func (P1Claims).GetSecurityLifeCycle
+//@   property C01 C05 C13 C17 C18 C14
+//@   ensures[absent] c.SecurityLifeCycle == nil ==> ret0 == 0 && ret1 != nil && errOnly(ret1, ErrMissingMandatory)
+//@   ensures[iff] c.SecurityLifeCycle != nil ==> ((ret1 == nil) == specLifecycle(*c.SecurityLifeCycle))
+//@   ensures[value] ret1 == nil ==> c.SecurityLifeCycle != nil && ret0 == *c.SecurityLifeCycle
+//@   ensures[class] c.SecurityLifeCycle != nil && ret1 != nil ==> ret0 == 0 && errOnly(ret1, ErrWrongSyntax)
+//@   modifies nothing
+
+//@ func (P1Claims).GetImplID
+//@   property C01 C05 C13 C17 C18
+//@   ensures[absent] c.ImplID == nil ==> ret0 == nil && ret1 != nil && errOnly(ret1, ErrMissingMandatory)
+//@   ensures[iff] c.ImplID != nil ==> ((ret1 == nil) == specImplIDLen(len(*c.ImplID)))
+//@   ensures[value] ret1 == nil ==> c.ImplID != nil && ret0 == *c.ImplID
+//@   ensures[class] c.ImplID != nil && ret1 != nil ==> ret0 == nil && errOnly(ret1, ErrWrongSyntax)
+//@   modifies nothing
+
+//@ func (P1Claims).GetBootSeed
+//@   property C01 C05 C13 C17 C18
+//@   ensures[absent] c.BootSeed == nil ==> ret0 == nil && ret1 != nil && errOnly(ret1, ErrMissingMandatory)
+//@   ensures[iff] c.BootSeed != nil ==> ((ret1 == nil) == specBootSeedP1(len(*c.BootSeed)))
+//@   ensures[value] ret1 == nil ==> c.BootSeed != nil && ret0 == *c.BootSeed
+//@   ensures[class] c.BootSeed != nil && ret1 != nil ==> ret0 == nil && errOnly(ret1, ErrWrongSyntax)
+//@   modifies nothing
+
+//@ func (P1Claims).GetNonce
+//@   property C01 C05 C13 C17 C18
+//@   ensures[absent] c.Nonce == nil ==> ret0 == nil && ret1 != nil && errOnly(ret1, ErrMissingMandatory)
+//@   ensures[iff] c.Nonce != nil ==> ((ret1 == nil) == specHashLen(len(*c.Nonce)))
+//@   ensures[value] ret1 == nil ==> c.Nonce != nil && ret0 == *c.Nonce
+//@   ensures[class] c.Nonce != nil && ret1 != nil ==> ret0 == nil && errOnly(ret1, ErrWrongSyntax)
+//@   modifies nothing
+
+//@ func (P1Claims).GetInstID
+//@   property C01 C05 C13 C17 C18
+//@   ensures[absent] c.InstID == nil ==> ret0 == nil && ret1 != nil && errOnly(ret1, ErrMissingMandatory)
+//@   ensures[iff] c.InstID != nil ==> ((ret1 == nil) == specInstID(len(*c.InstID), (*c.InstID)[0]))
+//@   ensures[value] ret1 == nil ==> c.InstID != nil && ret0 == *c.InstID
+//@   ensures[class] c.InstID != nil && ret1 != nil ==> ret0 == nil && errOnly(ret1, ErrWrongSyntax)
+//@   modifies nothing
+
+//@ func (P1Claims).GetVSI
+//@   property C01 C05 C13 C17 C18
+//@   ensures[absent] c.VSI == nil ==> ret0 == "" && ret1 != nil && errOnly(ret1, ErrMissingOptional)
+//@   ensures[iff] c.VSI != nil ==> ((ret1 == nil) == specVSI(*c.VSI))
+//@   ensures[value] ret1 == nil ==> c.VSI != nil && ret0 == *c.VSI
+//@   ensures[class] c.VSI != nil && ret1 != nil ==> ret0 == "" && errOnly(ret1, ErrWrongSyntax)
+//@   modifies nothing
+
+//@ func (P1Claims).GetCertificationReference
+//@   property C01 C05 C13 C17 C18
+//@   ensures[absent] c.CertificationReference == nil ==> ret0 == "" && ret1 != nil && errOnly(ret1, ErrMissingOptional)
+//@   ensures[iff] c.CertificationReference != nil ==> ((ret1 == nil) == specCertRefP1(*c.CertificationReference))
+//@   ensures[value] ret1 == nil ==> c.CertificationReference != nil && ret0 == *c.CertificationReference
+//@   ensures[class] c.CertificationReference != nil && ret1 != nil ==> ret0 == "" && errOnly(ret1, ErrWrongSyntax)
+//@   modifies nothing
+
+//@ func (P1Claims).GetSoftwareComponents
+//@   property C01 C05 C13 C17 C18
+//@   requires wfComps(c.SwComponents)
+//@   ensures[none-flag] specNoComps(c.SwComponents) && c.NoSwMeasurements != nil ==> ret0 == nil && ret1 == nil
+//@   ensures[none-noflag] specNoComps(c.SwComponents) && c.NoSwMeasurements == nil ==> ret0 == nil && ret1 != nil && errOnly(ret1, ErrMissingMandatory)
+//@   ensures[both] !specNoComps(c.SwComponents) && c.NoSwMeasurements != nil ==> ret0 == nil && ret1 != nil && errOnly(ret1, ErrWrongSyntax)
+//@   ensures[list-iff] !specNoComps(c.SwComponents) && c.NoSwMeasurements == nil ==> ((ret1 == nil) == specCompsValid(compsOf(c.SwComponents)))
+//@   ensures[list-values] !specNoComps(c.SwComponents) && c.NoSwMeasurements == nil && ret1 == nil ==> valuesOf(ret0, compsOf(c.SwComponents)) && fresh(ret0)
+//@   ensures[list-class] !specNoComps(c.SwComponents) && c.NoSwMeasurements == nil && ret1 != nil ==> ret0 == nil && (errOnly(ret1, ErrMissingMandatory) || errOnly(ret1, ErrWrongSyntax))
+//@   modifies nothing
+
+//@ func (P1Claims).Validate
+//@   property C01 C05 C08 C13 C17 C18
+//@   requires wfP1(c)
+//@   ensures[iff] (ret == nil) == validP1(c)
+//@   modifies nothing
+
+
+// ---------------------------------------------------------------- claims_p1.go: setters
+
+//@ func (*P1Claims).SetClientID
+//@   property C11 C05 C13
+//@   requires c != nil
+//@   ensures[ok] ret == nil && c.ClientID != nil && *c.ClientID == v && fresh(c.ClientID)
+//@   modifies c.ClientID
+
+//@ func (*P1Claims).SetSecurityLifeCycle
+//@   property C11 C05 C13 C14
+//@   requires c != nil
+//@   ensures[iff] (ret == nil) == specLifecycle(v)
+//@   ensures[set] ret == nil ==> c.SecurityLifeCycle != nil && *c.SecurityLifeCycle == v && fresh(c.SecurityLifeCycle)
+//@   ensures[unchanged] ret != nil ==> c.SecurityLifeCycle == old(c.SecurityLifeCycle)
+//@   ensures[class] ret != nil ==> errOnly(ret, ErrWrongSyntax)
+//@   modifies c.SecurityLifeCycle
+
+//@ func (*P1Claims).SetImplID
+//@   property C11 C05 C13
+//@   requires c != nil
+//@   ensures[iff] (ret == nil) == specImplIDLen(len(v))
+//@   ensures[set] ret == nil ==> c.ImplID != nil && *c.ImplID == v && fresh(c.ImplID)
+//@   ensures[unchanged] ret != nil ==> c.ImplID == old(c.ImplID)
+//@   ensures[class] ret != nil ==> errOnly(ret, ErrWrongSyntax)
+//@   modifies c.ImplID
+
+//@ func (*P1Claims).SetBootSeed
+//@   property C11 C05 C13
+//@   requires c != nil
+//@   ensures[iff] (ret == nil) == specBootSeedP1(len(v))
+//@   ensures[set] ret == nil ==> c.BootSeed != nil && *c.BootSeed == v && fresh(c.BootSeed)
+//@   ensures[unchanged] ret != nil ==> c.BootSeed == old(c.BootSeed)
+//@   ensures[class] ret != nil ==> errOnly(ret, ErrWrongSyntax)
+//@   modifies c.BootSeed
+
+//@ func (*P1Claims).SetCertificationReference
+//@   property C11 C05 C13
+//@   requires c != nil
+//@   ensures[iff] (ret == nil) == specCertRefP1(v)
+//@   ensures[set] ret == nil ==> c.CertificationReference != nil && *c.CertificationReference == v && fresh(c.CertificationReference)
+//@   ensures[unchanged] ret != nil ==> c.CertificationReference == old(c.CertificationReference)
+//@   ensures[class] ret != nil ==> errOnly(ret, ErrWrongSyntax)
+//@   modifies c.CertificationReference
+
+//@ func (*P1Claims).SetNonce
+//@   property C11 C05 C13
+//@   requires c != nil
+//@   ensures[iff] (ret == nil) == specHashLen(len(v))
+//@   ensures[set] ret == nil ==> c.Nonce != nil && *c.Nonce == v && fresh(c.Nonce)
+//@   ensures[unchanged] ret != nil ==> c.Nonce == old(c.Nonce)
+//@   ensures[class] ret != nil ==> errOnly(ret, ErrWrongSyntax)
+//@   modifies c.Nonce
+
+//@ func (*P1Claims).SetInstID
+//@   property C11 C05 C13
+//@   requires c != nil
+//@   ensures[iff] (ret == nil) == specInstID(len(v), v[0])
+//@   ensures[set] ret == nil ==> c.InstID != nil && *c.InstID == v && fresh(c.InstID)
+//@   ensures[unchanged] ret != nil ==> c.InstID == old(c.InstID)
+//@   ensures[class] ret != nil ==> errOnly(ret, ErrWrongSyntax)
+//@   modifies c.InstID
+
+//@ func (*P1Claims).SetVSI
+//@   property C11 C05 C13
+//@   requires c != nil
+//@   ensures[iff] (ret == nil) == specVSI(v)
+//@   ensures[set] ret == nil ==> c.VSI != nil && *c.VSI == v && fresh(c.VSI)
+//@   ensures[unchanged] ret != nil ==> c.VSI == old(c.VSI)
+//@   ensures[class] ret != nil ==> errOnly(ret, ErrWrongSyntax)
+//@   modifies c.VSI
+
+//@ func (*P1Claims).SetSoftwareComponents
+//@   property C11 C05 C13
+//@   requires c != nil && wfComps(c.SwComponents) && inputComps(scs)
+//@   ensures[flag] scs == nil ==> ret == nil && c.SwComponents == nil && c.NoSwMeasurements != nil && *c.NoSwMeasurements == 1 && fresh(c.NoSwMeasurements)
+//@   ensures[iff] scs != nil ==> ((ret == nil) == inputCompsValid(scs))
+//@   ensures[set] scs != nil && ret == nil ==> c.NoSwMeasurements == nil && wfComps(c.SwComponents) && c.SwComponents != nil && sameComps(compsOf(c.SwComponents), scs)
+//@   ensures[unchanged] scs != nil && ret != nil ==> c.NoSwMeasurements == old(c.NoSwMeasurements) && (old(c.SwComponents) == nil ==> wfComps(c.SwComponents) && specNoComps(c.SwComponents)) && (old(c.SwComponents) != nil ==> c.SwComponents == old(c.SwComponents) && compsOf(c.SwComponents) == old(compsOf(c.SwComponents)))
+//@   ensures[class] ret != nil ==> errOnly(ret, ErrMissingMandatory) || errOnly(ret, ErrWrongSyntax)
+//@   modifies c.SwComponents, c.NoSwMeasurements, c.SwComponents.(*SwComponents[*SwComponent]).values
+
+
+// ---------------------------------------------------------------- claims_p2.go: getters
+
+//@ func (P2Claims).GetProfile
+//@   property C01 C05 C13 C17 C18 C07
+//@   requires c.Profile == nil || profSet(*c.Profile)
+//@   ensures[absent] c.Profile == nil ==> ret0 == "" && ret1 != nil && errOnly(ret1, ErrMissingMandatory)
+//@   ensures[match] c.Profile != nil && profText(*c.Profile) == c.CanonicalProfile ==> ret1 == nil && ret0 == c.CanonicalProfile
+//@   ensures[mismatch] c.Profile != nil && profText(*c.Profile) != c.CanonicalProfile ==> ret0 == "" && ret1 != nil && errOnly(ret1, ErrWrongProfile)
+//@   modifies nothing
+
+//@ func (P2Claims).GetClientID
+//@   property C01 C05 C13 C17 C18
+//@   ensures[absent] c.ClientID == nil ==> ret0 == 0 && ret1 != nil && errOnly(ret1, ErrMissingMandatory)
+//@   ensures[present] c.ClientID != nil ==> ret1 == nil && ret0 == *c.ClientID
+//@   modifies nothing
+
+//@ func (P2Claims).GetSecurityLifeCycle
+//@   property C01 C05 C13 C17 C18 C14
+//@   ensures[absent] c.SecurityLifeCycle == nil ==> ret0 == 0 && ret1 != nil && errOnly(ret1, ErrMissingMandatory)
+//@   ensures[iff] c.SecurityLifeCycle != nil ==> ((ret1 == nil) == specLifecycle(*c.SecurityLifeCycle))
+//@   ensures[value] ret1 == nil ==> c.SecurityLifeCycle != nil && ret0 == *c.SecurityLifeCycle
+//@   ensures[class] c.SecurityLifeCycle != nil && ret1 != nil ==> ret0 == 0 && errOnly(ret1, ErrWrongSyntax)
+//@   modifies nothing
+
+//@ func (P2Claims).GetImplID
+//@   property C01 C05 C13 C17 C18
+//@   ensures[absent] c.ImplID == nil ==> ret0 == nil && ret1 != nil && errOnly(ret1, ErrMissingMandatory)
+//@   ensures[iff] c.ImplID != nil ==> ((ret1 == nil) == specImplIDLen(len(*c.ImplID)))
+//@   ensures[value] ret1 == nil ==> c.ImplID != nil && ret0 == *c.ImplID
+//@   ensures[class] c.ImplID != nil && ret1 != nil ==> ret0 == nil && errOnly(ret1, ErrWrongSyntax)
+//@   modifies nothing
+
+//@ func (P2Claims).GetBootSeed
+//@   property C01 C05 C13 C17 C18
+//@   ensures[absent] c.BootSeed == nil ==> ret0 == nil && ret1 != nil && errOnly(ret1, ErrMissingOptional)
+//@   ensures[iff] c.BootSeed != nil ==> ((ret1 == nil) == specBootSeedP2(len(*c.BootSeed)))
+//@   ensures[value] ret1 == nil ==> c.BootSeed != nil && ret0 == *c.BootSeed
+//@   ensures[class] c.BootSeed != nil && ret1 != nil ==> ret0 == nil && errOnly(ret1, ErrWrongSyntax)
+//@   modifies nothing
+
+//@ func (P2Claims).GetNonce
+//@   property C01 C05 C13 C17 C18
+//@   ensures[absent] c.Nonce == nil ==> ret0 == nil && ret1 != nil && errOnly(ret1, ErrMissingMandatory)
+//@   ensures[iff] c.Nonce != nil ==> ((ret1 == nil) == (len(*c.Nonce) == 1 && specHashLen(len(nonceVal(*c.Nonce, 0)))))
+//@   ensures[value] ret1 == nil ==> c.Nonce != nil && ret0 == nonceVal(*c.Nonce, 0)
+//@   ensures[class] c.Nonce != nil && ret1 != nil ==> ret0 == nil && errOnly(ret1, ErrWrongSyntax)
+//@   modifies nothing
+
+//@ func (P2Claims).GetInstID
+//@   property C01 C05 C13 C17 C18
+//@   ensures[absent] c.InstID == nil ==> ret0 == nil && ret1 != nil && errOnly(ret1, ErrMissingMandatory)
+//@   ensures[iff] c.InstID != nil ==> ((ret1 == nil) == specInstID(len(*c.InstID), (*c.InstID)[0]))
+//@   ensures[value] ret1 == nil ==> c.InstID != nil && ret0 == []byte(*c.InstID)
+//@   ensures[class] c.InstID != nil && ret1 != nil ==> ret0 == nil && errOnly(ret1, ErrWrongSyntax)
+//@   modifies nothing
+
+//@ func (P2Claims).GetVSI
+//@   property C01 C05 C13 C17 C18
+//@   ensures[absent] c.VSI == nil ==> ret0 == "" && ret1 != nil && errOnly(ret1, ErrMissingOptional)
+//@   ensures[iff] c.VSI != nil ==> ((ret1 == nil) == specVSI(*c.VSI))
+//@   ensures[value] ret1 == nil ==> c.VSI != nil && ret0 == *c.VSI
+//@   ensures[class] c.VSI != nil && ret1 != nil ==> ret0 == "" && errOnly(ret1, ErrWrongSyntax)
+//@   modifies nothing
+
+//@ func (P2Claims).GetCertificationReference
+//@   property C01 C05 C13 C17 C18
+//@   ensures[absent] c.CertificationReference == nil ==> ret0 == "" && ret1 != nil && errOnly(ret1, ErrMissingOptional)
+//@   ensures[iff] c.CertificationReference != nil ==> ((ret1 == nil) == specCertRefP2(*c.CertificationReference))
+//@   ensures[value] ret1 == nil ==> c.CertificationReference != nil && ret0 == *c.CertificationReference
+//@   ensures[class] c.CertificationReference != nil && ret1 != nil ==> ret0 == "" && errOnly(ret1, ErrWrongSyntax)
+//@   modifies nothing
+
+//@ func (P2Claims).GetSoftwareComponents
+//@   property C01 C05 C13 C17 C18
+//@   requires wfComps(c.SwComponents)
+//@   ensures[none] specNoComps(c.SwComponents) ==> ret0 == nil && ret1 != nil && errOnly(ret1, ErrMissingMandatory)
+//@   ensures[list-iff] !specNoComps(c.SwComponents) ==> ((ret1 == nil) == specCompsValid(compsOf(c.SwComponents)))
+//@   ensures[list-values] !specNoComps(c.SwComponents) && ret1 == nil ==> valuesOf(ret0, compsOf(c.SwComponents)) && fresh(ret0)
+//@   ensures[list-class] !specNoComps(c.SwComponents) && ret1 != nil ==> ret0 == nil && (errOnly(ret1, ErrMissingMandatory) || errOnly(ret1, ErrWrongSyntax))
+//@   modifies nothing
+
+//@ func (P2Claims).Validate
+//@   property C01 C05 C08 C13 C17 C18
+//@   requires wfP2(c)
+//@   ensures[iff] (ret == nil) == validP2(c)
+//@   modifies nothing
+
+
+// ---------------------------------------------------------------- claims_p2.go: setters
+
+//@ func (*P2Claims).SetClientID
+//@   property C11 C05 C13
+//@   requires c != nil
+//@   ensures[ok] ret == nil && c.ClientID != nil && *c.ClientID == v && fresh(c.ClientID)
+//@   modifies c.ClientID
+
+//@ func (*P2Claims).SetSecurityLifeCycle
+//@   property C11 C05 C13 C14
+//@   requires c != nil
+//@   ensures[iff] (ret == nil) == specLifecycle(v)
+//@   ensures[set] ret == nil ==> c.SecurityLifeCycle != nil && *c.SecurityLifeCycle == v && fresh(c.SecurityLifeCycle)
+//@   ensures[unchanged] ret != nil ==> c.SecurityLifeCycle == old(c.SecurityLifeCycle)
+//@   ensures[class] ret != nil ==> errOnly(ret, ErrWrongSyntax)
+//@   modifies c.SecurityLifeCycle
+
+//@ func (*P2Claims).SetImplID
+//@   property C11 C05 C13
+//@   requires c != nil
+//@   ensures[iff] (ret == nil) == specImplIDLen(len(v))
+//@   ensures[set] ret == nil ==> c.ImplID != nil && *c.ImplID == v && fresh(c.ImplID)
+//@   ensures[unchanged] ret != nil ==> c.ImplID == old(c.ImplID)
+//@   ensures[class] ret != nil ==> errOnly(ret, ErrWrongSyntax)
+//@   modifies c.ImplID
+
+//@ func (*P2Claims).SetBootSeed
+//@   property C11 C05 C13
+//@   requires c != nil
+//@   ensures[iff] (ret == nil) == specBootSeedP2(len(v))
+//@   ensures[set] ret == nil ==> c.BootSeed != nil && *c.BootSeed == v && fresh(c.BootSeed)
+//@   ensures[unchanged] ret != nil ==> c.BootSeed == old(c.BootSeed)
+//@   ensures[class] ret != nil ==> errOnly(ret, ErrWrongSyntax)
+//@   modifies c.BootSeed
+
+//@ func (*P2Claims).SetCertificationReference
+//@   property C11 C05 C13
+//@   requires c != nil
+//@   ensures[iff] (ret == nil) == specCertRefP2(v)
+//@   ensures[set] ret == nil ==> c.CertificationReference != nil && *c.CertificationReference == v && fresh(c.CertificationReference)
+//@   ensures[unchanged] ret != nil ==> c.CertificationReference == old(c.CertificationReference)
+//@   ensures[class] ret != nil ==> errOnly(ret, ErrWrongSyntax)
+//@   modifies c.CertificationReference
+
+//@ func (*P2Claims).SetNonce
+//@   property C11 C05 C13
+//@   requires c != nil
+//@   ensures[iff] (ret == nil) == specHashLen(len(v))
+//@   ensures[set] ret == nil ==> c.Nonce != nil && len(*c.Nonce) == 1 && nonceVal(*c.Nonce, 0) == v && fresh(c.Nonce)
+//@   ensures[unchanged] ret != nil ==> c.Nonce == old(c.Nonce)
+//@   ensures[class] ret != nil ==> errOnly(ret, ErrWrongSyntax)
+//@   modifies c.Nonce
+
+//@ func (*P2Claims).SetInstID
+//@   property C11 C05 C13
+//@   requires c != nil
+//@   ensures[iff] (ret == nil) == specInstID(len(v), v[0])
+//@   ensures[set] ret == nil ==> c.InstID != nil && []byte(*c.InstID) == v && fresh(c.InstID)
+//@   ensures[unchanged] ret != nil ==> c.InstID == old(c.InstID)
+//@   ensures[class] ret != nil ==> errOnly(ret, ErrWrongSyntax)
+//@   modifies c.InstID
+
+//@ func (*P2Claims).SetVSI
+//@   property C11 C05 C13
+//@   requires c != nil
+//@   ensures[iff] (ret == nil) == specVSI(v)
+//@   ensures[set] ret == nil ==> c.VSI != nil && *c.VSI == v && fresh(c.VSI)
+//@   ensures[unchanged] ret != nil ==> c.VSI == old(c.VSI)
+//@   ensures[class] ret != nil ==> errOnly(ret, ErrWrongSyntax)
+//@   modifies c.VSI
+
+//@ func (*P2Claims).SetSoftwareComponents
+//@   property C11 C05 C13
+//@   requires c != nil && wfComps(c.SwComponents) && inputComps(scs)
+//@   ensures[iff] (ret == nil) == inputCompsValid(scs)
+//@   ensures[set] ret == nil ==> wfComps(c.SwComponents) && c.SwComponents != nil && sameComps(compsOf(c.SwComponents), scs)
+//@   ensures[unchanged] ret != nil ==> (old(c.SwComponents) == nil ==> wfComps(c.SwComponents) && specNoComps(c.SwComponents)) && (old(c.SwComponents) != nil ==> c.SwComponents == old(c.SwComponents) && compsOf(c.SwComponents) == old(compsOf(c.SwComponents)))
+//@   ensures[class] ret != nil ==> errOnly(ret, ErrMissingMandatory) || errOnly(ret, ErrWrongSyntax)
+//@   modifies c.SwComponents, c.SwComponents.(*SwComponents[*SwComponent]).values
+
+
+// ---------------------------------------------------------------- swcomponents.go: mutators
+
+//@ func validateAndConvert[*SwComponent]
+//@   property C11 C05 C13
+//@   requires inputComps(vals)
+//@   ensures[iff] (ret1 == nil) == inputCompsValid(vals)
+//@   ensures[values] ret1 == nil ==> sameComps(ret0, vals) && fresh(ret0) && ret0 != nil
+//@   ensures[err] ret1 != nil ==> ret0 == nil
+//@   ensures[class] ret1 != nil ==> errOnly(ret1, ErrMissingMandatory) || errOnly(ret1, ErrWrongSyntax)
+//@   modifies nothing
+//@   loop 0 invariant 0 <= i && i <= len(vals) && len(ret) == len(vals) && fresh(ret) && ret != nil
+//@   loop 0 invariant forall(j, 0, i, specComponent(vals[j].(*SwComponent)) && ret[j] == vals[j].(*SwComponent))
+
+//@ func (*SwComponents[*SwComponent]).Replace
+//@   property C11 C05 C13
+//@   requires o != nil && inputComps(vals)
+//@   ensures[iff] (ret == nil) == inputCompsValid(vals)
+//@   ensures[set] ret == nil ==> sameComps(o.values, vals) && fresh(o.values)
+//@   ensures[unchanged] ret != nil ==> o.values == old(o.values)
+//@   ensures[class] ret != nil ==> errOnly(ret, ErrMissingMandatory) || errOnly(ret, ErrWrongSyntax)
+//@   modifies o.values
+
+//@ func (*SwComponents[*SwComponent]).Add
+//@   property C11 C05 C13
+//@   requires o != nil && inputComps(vals)
+//@   ensures[iff] (ret == nil) == inputCompsValid(vals)
+//@   ensures[set] ret == nil ==> len(o.values) == len(old(o.values)) + len(vals) && forall(j, 0, len(old(o.values)), o.values[j] == old(o.values[j])) && forall(j, 0, len(vals), o.values[len(old(o.values))+j] == vals[j].(*SwComponent))
+//@   ensures[unchanged] ret != nil ==> o.values == old(o.values)
+//@   ensures[class] ret != nil ==> errOnly(ret, ErrMissingMandatory) || errOnly(ret, ErrWrongSyntax)
+//@   modifies o.values, elems(o.values)
+
+// ---------------------------------------------------------------- iclaims.go
+
+//@ func ValidateClaims
+//@   property C01 C05 C08 C13 C17 C18
+//@   requires (typeIs(c, *P1Claims) && c.(*P1Claims) != nil && wfP1(*c.(*P1Claims))) || (typeIs(c, *P2Claims) && c.(*P2Claims) != nil && wfP2(*c.(*P2Claims)))
+//@   ensures[iff-p1] typeIs(c, *P1Claims) ==> ((ret == nil) == validP1(*c.(*P1Claims)))
+//@   ensures[iff-p2] typeIs(c, *P2Claims) ==> ((ret == nil) == validP2(*c.(*P2Claims)))
+//@   modifies nothing
